@@ -237,3 +237,30 @@ func VerifH_C14_uniqueMany() {
 	verifAssert(n == N, "a host that had been printed was printed again (or one was lost) in a long live session")
 	verifCover("done")
 }
+
+// VerifH_C14_uniqueRepeat: a long live session over FEW hosts: H hosts answer in every one of R passes
+// (R beyond any small counter width: 8 and 16 bit): each host is printed exactly once, the first time.
+// Concrete execution except for the number of hosts.
+func VerifH_C14_uniqueRepeat() {
+	R := verifParam("R", 70000)
+	H := 1 + int(verifConcretize(uint64(ndU8("hosts")%3)))
+	in := make(chan scan.Result, 64)
+	go func() {
+		for p := 0; p < R; p++ {
+			for h := 0; h < H; h++ {
+				in <- &c14Result{id: "10.0.0." + string(rune('1'+h))}
+			}
+		}
+		close(in)
+	}()
+	ul := NewUniqueLogger(nil)
+	var got []string
+	for r := range ul.uniqResults(context.Background(), in) {
+		got = append(got, r.ID())
+	}
+	verifAssert(len(got) == H, "a host seen in every pass of a long live session was printed more than once (or not at all)")
+	for h := 0; h < H && h < len(got); h++ {
+		verifAssert(got[h] == "10.0.0."+string(rune('1'+h)), "hosts printed in another order than first seen")
+	}
+	verifCover("done")
+}
